@@ -23,8 +23,9 @@ RULES = {
     "R4": "to_screen row-aligned; unique filter keys = sample_ids + all treatment columns; marks first occurrences on fresh zeros",
     "R5": "view discipline: every read of the parent's per-experiment data in ScreenSubset / Plate is subscripted by the view's selection; no question is delegated to the parent screen",
     "R6": "the derived screen attributes this property's code relies on (size, unique_plate_ids) have their documented definitions in ScreenBase and every override",
+    "R7": "a view reports its parent's values as they are NOW: no getter of the view (or of the screen) keeps a result derived from state that Plate.merge / set_observed mutate (cached_property, lru_cache, a memo attribute)",
 }
-MIN = {"R1": 12, "R2": 10, "R3": 8, "R4": 4, "R5": 15, "R6": 2}
+MIN = {"R1": 12, "R2": 10, "R3": 8, "R4": 4, "R5": 15, "R6": 2, "R7": 2}
 TRUSTED = ["numpy: boolean/integer-array indexing copies, basic slicing views", "np.unique(axis=0, return_index=True) returns first occurrences"]
 TECHNIQUE = "property-form comparison (provenance), freshness/borrowed-mutation abstract interpretation, boolean normal forms"
 LEVEL_TEXT = ("Decides view agreement, absence of aliasing mutations and the set-algebra operators from the source for all "
@@ -588,7 +589,11 @@ def r_derived(ctx):
     common.derived_attributes(ctx, "R6", ['size', 'unique_plate_ids'])
 
 
-RULE_FUNCS = [r1, r2, r3, r4, r5, r_derived]
+def r7(ctx):
+    common.no_stale_memo(ctx, "R7")
+
+
+RULE_FUNCS = [r1, r2, r3, r4, r5, r_derived, r7]
 
 
 def _rep(a, b):
@@ -600,6 +605,8 @@ def _rep(a, b):
 
 
 WITNESSES = [
+    ("view caches its plate ids", "batchie.data",
+     _rep("    @property\n    def plate_ids(self):\n        return self.screen.plate_ids[self.selection_vector]", "    @functools.cached_property\n    def plate_ids(self):\n        return self.screen.plate_ids[self.selection_vector]"), ["R7"]),
     ("subset scatters into the outer selection", "batchie.data", _rep("original_selection_vector = self.selection_vector.copy()", "original_selection_vector = self.selection_vector"), ["R2"]),
     ("observations view indexes sample_ids", "batchie.data", _rep("return self.screen.observations[self.selection_vector]", "return self.screen.sample_ids[self.selection_vector]"), ["R1"]),
     ("combine uses &", "batchie.data", _rep("return Plate(self.screen, self.selection_vector | other.selection_vector)", "return Plate(self.screen, self.selection_vector & other.selection_vector)"), ["R3"]),
